@@ -4,6 +4,7 @@
 -/
 import XotModel.Lemmas.FframeGeneralAll
 import XotModel.Lemmas.FmapMix
+import XotModel.Lemmas.FhistAtomic
 
 namespace XotModel
 namespace Fmap
@@ -161,8 +162,21 @@ theorem sharp_step {s : PStore} (hi : s.forest.Inv) (c : PCall) (hw : c.wellKind
   cases c with
   | parse m t => exact coarse ht
   | api y =>
+    by_cases herr : (y.args.all (fun a => s.forest.isLive a) && (y.run s.store).2.isErr) = true
+    · simp only [Bool.and_eq_true, List.all_eq_true] at herr
+      obtain ⟨hla, he⟩ := herr
+      have hsame : (s.step (.api y)).forest = s.forest := by
+        cases hr : (y.run s.store).2 with
+        | err e =>
+          rcases Forest.xcall_clauses (s := s.store) hi y hla with ⟨_, h'⟩ | ⟨_, h'⟩
+          · exact congrArg Store.forest (h'.atomic e hr)
+          · exact congrArg Store.forest (congrArg Prod.fst h')
+        | ok => rw [hr] at he; cases he
+        | panic => rw [hr] at he; cases he
+      rw [hsame]
+      exact ⟨fun _ => rfl, rfl⟩
     by_cases hf : (y.framed && decide ((y.run s.store).2 = .ok) && y.args.all (fun a => s.forest.isLive a)) = true
-    · simp only [sharpTouches, if_pos hf, Bool.or_eq_false_iff, Bool.not_eq_false'] at ht
+    · simp only [sharpTouches, if_neg herr, if_pos hf, Bool.or_eq_false_iff, Bool.not_eq_false'] at ht
       obtain ⟨hl, hany⟩ := ht
       simp only [Bool.and_eq_true, decide_eq_true_eq, List.all_eq_true] at hf
       obtain ⟨⟨hfr, hok⟩, hla⟩ := hf
@@ -193,7 +207,7 @@ theorem sharp_step {s : PStore} (hi : s.forest.Inv) (c : PCall) (hw : c.wellKind
       unfold Forest.isElement
       rw [frx.value]
     · have : sharpTouches s x (.api y) = touchesEntries s.forest x (.api y) := by
-        simp only [sharpTouches, if_neg hf]
+        simp only [sharpTouches, if_neg herr, if_neg hf]
       exact coarse (this ▸ ht)
 
 theorem mix_history_sharp (T : List Nat) : ∀ (steps : List MixStep) (s : PStore) (F : Fam), s.forest.Inv →
